@@ -154,4 +154,21 @@ func init() {
 		Technique: "runtime monitoring: scenario enumeration with reference byte-stream model, snapshot-based deadlock detection, Go race detector on the end-to-end phase",
 		DesignRef: "DESIGN.md §3 C20",
 	})
+	add(Spec{
+		PropSpec: vlib.PropSpec{
+			ID: "C16", Level: "exploration",
+			Rule: "Scripted data sources (copying, and zero-copy ones that really reuse one buffer and overwrite it on every read) replay PRNG histories of 5..300 items (a 2500-item tier overflows the 1000-slot channel): packets with unique ids (caplen <= len, snapped in 1 of 4), timeouts (net.Error), transient errors, and a terminal error out of {EOF, ErrUnexpectedEOF, ErrNoProgress, ErrClosedPipe, ErrShortBuffer, EBADF, 'use of closed file', wrapped EOF}; decode options Lazy/NoCopy PRNG. pull phase: NextPacket results must mirror the script item by item (errors surfaced as-is, ids in order, CaptureInfo equal, Truncated == caplen<len or decoder-detected). channel phase: ids received from Packets() == the script's packets in order, once; channel closed after the terminal error and not before, no read after it; slow and fast consumers; zero-copy source + NoCopy must be refused. cancel phase: PacketsCtx cancelled at every script position (enumerated modulo the script length), both between reads and while a read is blocked inside the source: at most one source read may start after cancel() returned and the channel must get closed (goroutine exit), decided with a goroutine snapshot; no packetsToChannel goroutine may be left at the end. Every delivered packet's signature is recomputed after the whole script ran (not altered by later reads). All phases under the race detector. Non-trivial = every script (>= 5 items, >= 1 packet); distinct by (case, batch).",
+			Assumptions: []string{"the 5 ms retry sleeps of packetsToChannel bound throughput: scripts contain <= 12 timeouts/transient errors", "a zero-copy source with NoCopy on the pull interface aliases by design and is excluded from the not-altered check"},
+			Phases: []vlib.Phase{
+				{Name: "pull", Bin: "vchild", Race: true, Quick: 8, Thorough: 16},
+				{Name: "channel", Bin: "vchild", Race: true, Quick: 16, Thorough: 16, Procs: 2, Parallel: 8},
+				{Name: "cancel", Bin: "vchild", Race: true, Quick: 16, Thorough: 16, Procs: 2, Parallel: 8},
+			},
+			Require: []string{"pull_packets", "pull_errors_surfaced", "channel_packets", "channels_closed_after_terminal_error", "zero_copy_nocopy_refusals_checked", "cancellations", "cancellations_during_a_read"},
+		},
+		LevelText: "Runtime monitor: the real PacketSource runs against scripted data sources; an event log of source reads and consumer receipts is checked for exactly-once in-order delivery, metadata, channel closing and bounded reads after cancellation; race detector on.",
+		LevelNote: trusted,
+		Technique: "runtime monitoring: scripted fault-injecting data source + history checker (exactly-once/in-order/closing), snapshot-based liveness, Go race detector",
+		DesignRef: "DESIGN.md §3 C16",
+	})
 }
